@@ -146,7 +146,47 @@ def arm (i : Input) : String :=
     opS ++ "-" ++ reqKind r ++ (if m.trace.length == 3 then "2" else "") ++ "-" ++
       showCls (match r with | .ls .. => clsFirst (i.beh k) | _ => clsAt r.isAdd (i.beh k)) ++ "-" ++ showRes m.res
 
+def parseAuxOp (s : String) : Option Aux.Op :=
+  match s with
+  | "blockGet" => some .blockGet | "blockPut" => some .blockPut | "resolve" => some .resolve
+  | "swarmPeers" => some .swarmPeers | "repoGC" => some .repoGC | "configKey" => some .configKey
+  | _ => none
+
+def parseAuxRes (s : String) : Option Aux.Res :=
+  match s.splitOn ":" with
+  | ["ok", a, b] => do pure (.ok (← a.toNat?) (← b.toNat?))
+  | ["err"] => some .err | ["errctx"] => some .errctx | ["hang"] => some .hang | ["panic"] => some .panic
+  | _ => none
+
+def showAuxRes : Aux.Res → String
+  | .ok a b => s!"ok:{a}:{b}" | .err => "err" | .errctx => "errctx" | .hang => "hang" | .panic => "panic"
+
+/-- `aux <op> <beh> <variant> <wire> => <res>` -/
+def answerAux (ws : List String) : String :=
+  match splitArrow ws with
+  | some ([op, beh, v, wire], [res]) =>
+    match parseAuxOp op, wire.toNat?, v.toNat?, parseAuxRes res with
+    | some op, some wire, some v, some r =>
+      match parseBeh wire beh with
+      | some b =>
+        let i : Aux.In := ⟨op, b, v⟩
+        let m := Aux.run i
+        let opS := match op with
+          | .blockGet => "blockGet" | .blockPut => "blockPut" | .resolve => "resolve"
+          | .swarmPeers => "swarmPeers" | .repoGC => "repoGC" | .configKey => "configKey"
+        let armS := "aux-" ++ opS ++ "-" ++
+          (if b.status == 200 then "200" else if b.status / 100 == 2 then "2xx" else toString (b.status / 100) ++ "xx") ++ "-" ++
+          (if m.isOk then "ok" else "err")
+        let failed := (Aux.clauses i r).filter (fun c => !c.2)
+        if !failed.isEmpty then "propfail " ++ ",".intercalate (failed.map (·.1)) ++ " arm=" ++ armS
+        else if r != m then "diff arm=" ++ armS ++ " model=" ++ showAuxRes m
+        else "ok arm=" ++ armS
+      | none => "bad-case beh"
+    | _, _, _, _ => "bad-case"
+  | _ => "bad-case"
+
 def answer (ws : List String) : String :=
+  if ws.head? == some "aux" then answerAux ws.tail else
   match parseCase ws with
   | none => "bad-case"
   | some (i, o) =>
